@@ -110,7 +110,5 @@ func Sleep(ns uint64) {
 }
 
 func MapClear[M ~map[K]V, K comparable, V any](m M) {
-	for k := range m {
-		delete(m, k)
-	}
+	clear(m)
 }
